@@ -656,7 +656,7 @@ func (g *trigGen) event() string {
 			"Transfer", "~transfer", "PING~"}
 		n := Pick(r, names)
 		if r.Intn(1000) < 7 {
-			// a transaction event named like a block-event bucket (see known finding C17-endblock-panic)
+			// a transaction event named like a block-event bucket (see observations/C17.md)
 			n = Pick(r, []string{"block-height", "Block-Time~", "block-time"})
 		}
 		var attrs []string
